@@ -8,7 +8,7 @@ echo "$V" | sed "s/^/$ID: /"
 echo "$V" | grep -q "demo$N without patch: exit=0" || { echo "$ID: REJECTED (demo fails without patch)"; exit 0; }
 echo "$V" | grep -q "132 passed" || { echo "$ID: REJECTED (tests)"; exit 0; }
 echo "$V" | grep -q "demo$N with patch: exit=0" && { echo "$ID: REJECTED (demo passes with patch)"; exit 0; }
-C=$(MUT_SCRATCH=/tmp/mut2 python3 /verif/tools/seedcheck.py "$WT/out/patch$N.diff" 2>&1)
+C=$(MUT_SCRATCH=${SEED_SCRATCH:-/tmp/mut2} python3 /verif/tools/seedcheck.py "$WT/out/patch$N.diff" 2>&1)
 echo "$C" | sed "s/^/$ID: /"
 mkdir -p "$OUT"
 cp "$WT/out/patch$N.diff" "$OUT/patch.diff"; cp "$WT/out/demo$N.rs" "$OUT/demo.rs"; cp "$WT/out/meta$N.txt" "$OUT/needs.txt" 2>/dev/null
